@@ -592,12 +592,27 @@ func c13XrefReplay(r *vkit.Run) bool {
 	if err := loadReplayCase(r, &w); err != nil || w.Mode != "xref" {
 		return false
 	}
-	var full struct {
-		Dangling []string `json:"dangling"`
+	// rebuild the generator's view from the witness files
+	world := &c13World{Files: map[string]interface{}{}}
+	ok := true
+	func() {
+		defer func() {
+			if recover() != nil {
+				ok = false
+			}
+		}()
+		for _, n := range c13FileNames {
+			world.Files[n] = mustTree(w.Files[n])
+		}
+	}()
+	if !ok {
+		r.Inconclusive("cross-reference witness: files do not parse")
+		return true
 	}
-	loadReplayCase(r, &full)
-	if w.Loads < 24 {
-		w.Loads = 24
+	sd, bd := c13XrefDangling(world)
+	dangling := sd
+	if w.Side == "bal" {
+		dangling = bd
 	}
 	if w.Loads < 200 {
 		w.Loads = 200 // a replay may afford more loads than the run that found it
@@ -606,6 +621,6 @@ func c13XrefReplay(r *vkit.Run) bool {
 	defer fs.remove()
 	r.SetMinDistinct(0)
 	r.Evals(1)
-	c13XrefRun(r, &w, nil, full.Dangling, fs)
+	c13XrefRun(r, &w, world, dangling, fs)
 	return true
 }
